@@ -81,7 +81,7 @@ def run(ck):
         if c.got[0] != "fail":
             dist[c.got[0]] = dist.get(c.got[0], 0) + 1
             continue
-        for (loc, label, actual, exp) in c.got[1]:
+        for (loc, label, actual, exp) in [e[:4] for e in c.got[1]]:
             m = re.match(r"expected slice with (\d+) elements?", label)
             kind = "exact-wording" if m else ("partial-wording" if label.startswith("slice pattern mismatch") else ("set" if label.startswith("set pattern") else "other"))
             dist[kind] = dist.get(kind, 0) + 1
